@@ -223,8 +223,44 @@ def r4(ctx, R):
             R.violation("C14.R4", "FRegex", "DO label group", loc(do.rel, do.node), "DO does not capture a numeric label: labelled DO loops are never closed by their terminal statement")
 
 
+def r5(ctx, R):
+    R.rule("C14.R5", "form detection: evidence for free form (a declaration keyword in columns 1-5, 1-4 leading blanks before a letter) is evaluated for every non-preprocessor line - in particular not only for lines that fail the fixed-form comment-flag test, whose flags are also first letters of declaration keywords", floor=2, confirmed=2)
+    f = ctx.m.fn("detect_fixed_format")
+    F = ctx.facts(f, interproc=False)
+    com = ctx.p.named.get("FIXED_COMMENT")
+    if com is None or com.tree is None:
+        raise AnalysisError("FRegex.FIXED_COMMENT not found")
+    flags, _ = rex.first_chars(com.tree, com.ignorecase)
+    n = 0
+    for c in calls_in(f.node):
+        nm = ctx.p.fregex_ref(f.rel, c.func.value) if isinstance(c.func, ast.Attribute) else None
+        if nm is None or nm == "FIXED_COMMENT" or c.func.attr != "match":
+            continue
+        rx_ = ctx.p.named[nm]
+        # first non-blank characters the evidence pattern can start with
+        seq = [it for it in rex.items(rx_.tree)]
+        firsts = set()
+        for i, (op, av) in enumerate(seq):
+            fs, nullable = rex.first_chars([seq[i]], rx_.ignorecase)
+            firsts |= {ch for ch in fs if ch != " "}
+            if not nullable:
+                break
+        overlap = {ch for ch in firsts if ch in flags}
+        n += 1
+        facts = F.at(c) or set()
+        shadowed = any(b[0] == "cond" and "FIXED_COMMENT.match(" in b[1] and b[2] is False for b in facts) or any(b[0] in ("falsy", "null") and "FIXED_COMMENT.match(" in str(b[1]) for b in facts)
+        k = f"FRegex.{nm}.match(line)"
+        if shadowed and overlap:
+            R.violation("C14.R5", f.short, k, loc(f, c), f"this free-form evidence is only examined for lines that do not start with a comment flag, but {sorted(overlap)} are both comment flags and first letters of what {nm} matches (CHARACTER, COMPLEX, CLASS, DOUBLE ...): a free-form file whose declarations start in column 1 is classified as fixed form")
+        else:
+            R.ok("C14.R5", f.short, k, loc(f, c), f"evaluated independently of the comment-flag test (overlap {sorted(overlap)})")
+    if n < 2:
+        raise AnalysisError(f"detect_fixed_format: {n} evidence patterns found")
+
+
 def run(ctx, R):
     r1(ctx, R)
     r2(ctx, R)
     r3(ctx, R)
     r4(ctx, R)
+    r5(ctx, R)
